@@ -160,6 +160,7 @@ func (w *inotify) Close() error {
 	if w.shared.close() {
 		return nil
 	}
+	verifPoint("inotify.close", 0)
 
 	// Causes any blocking reads to return with an error, provided the file
 	// still supports deadline operations.
@@ -178,6 +179,7 @@ func (w *inotify) AddWith(path string, opts ...addOpt) error {
 	if w.isClosed() {
 		return ErrClosed
 	}
+	verifPoint("inotify.api", 0)
 	if debug {
 		fmt.Fprintf(os.Stderr, "FSNOTIFY_DEBUG: %s  AddWith(%q)\n",
 			time.Now().Format("15:04:05.000000000"), path)
@@ -289,6 +291,7 @@ func (w *inotify) Remove(name string) error {
 	if w.isClosed() {
 		return nil
 	}
+	verifPoint("inotify.api", 1)
 	if debug {
 		fmt.Fprintf(os.Stderr, "FSNOTIFY_DEBUG: %s  Remove(%q)\n",
 			time.Now().Format("15:04:05.000000000"), name)
@@ -329,6 +332,7 @@ func (w *inotify) WatchList() []string {
 	if w.isClosed() {
 		return nil
 	}
+	verifPoint("inotify.api", 2)
 
 	w.mu.Lock()
 	defer w.mu.Unlock()
@@ -355,6 +359,7 @@ func (w *inotify) readEvents() {
 		}
 
 		n, err := w.inotifyFile.Read(buf[:])
+		verifPoint("inotify.read", n)
 		if err != nil {
 			if errors.Is(err, os.ErrClosed) {
 				return
@@ -404,6 +409,7 @@ func (w *inotify) readEvents() {
 }
 
 func (w *inotify) handleEvent(inEvent *unix.InotifyEvent, buf *[65536]byte, offset uint32) (Event, bool) {
+	verifPoint("inotify.handle", int(offset))
 	w.mu.Lock()
 	defer w.mu.Unlock()
 
